@@ -107,6 +107,12 @@ func judge(c Case, w *vkit.W) {
 			if err := roman.Valid(text, 0); err != nil {
 				w.Fail(c, "valid-rejects-formatted-numeral", fmt.Sprintf("%s: Valid(%q) = %v (n=%d flags=%#x)", path, text, err, c.N, flagsSub))
 			}
+			// the rule only speaks about the empty text: every other numeral is as valid under it as without it
+			if text != "" {
+				if err := roman.Valid(text, roman.RuleDisableEmptyAsZero); err != nil {
+					w.Fail(c, "valid-rejects-formatted-numeral", fmt.Sprintf("%s: Valid(%q, RuleDisableEmptyAsZero) = %v (n=%d flags=%#x)", path, text, err, c.N, flagsSub))
+				}
+			}
 			if (c.N%16 == 5 || c.N > 129000) && c.N < 1000000 { // the other instantiations of the validity check and of the parser (constraint: ~string | ~[]byte)
 				if err := roman.Valid(w.Scratch(text), 0); err != nil {
 					w.Fail(c, "valid-rejects-formatted-numeral", fmt.Sprintf("%s: Valid[[]byte](%q) = %v (n=%d flags=%#x)", path, text, err, c.N, flagsSub))
